@@ -6,11 +6,13 @@
 (* mechanism transcription against the same clauses.                                   *)
 EXTENDS Integers, Sequences, FiniteSets, TLC
 
-Probes == {"p1", "p2", "p3", "p4", "p5", "p6", "p7", "p8", "p9", "p10", "p11", "p12", "p13", "p14", "p15", "q2", "bad", "bad2", "bad3"}
+Probes == {"p1", "p2", "p3", "p4", "p5", "p6", "p7", "p8", "p9", "p10", "p11", "p12", "p13", "p14", "p15", "p16", "q2", "bad", "bad2", "bad3", "bad4"}
 \* bad = 'f > zzz' (no such variable), bad2 = 'g > #nope' (no such meta-variable): refused with a selector error;
 \* bad3 = 'f > lam > a' where lam is a lambda: refused with a type error AFTER f, the first function of the path, was tooled
-Valid(p) == p \notin {"bad", "bad2", "bad3"}
-RefusalClass(p) == IF p = "bad3" THEN "TypeError" ELSE "SelectorError"
+\* bad4 = 'lam > g > a': refused with a type error BEFORE g, the later function of the path, is reached (nothing of g's was pushed)
+\* p16 = Probe('f(a, b)', 'g > a'): one probe given a focus-free selector (total: one record when f returns) and a focused one
+Valid(p) == p \notin {"bad", "bad2", "bad3", "bad4"}
+RefusalClass(p) == IF p \in {"bad3", "bad4"} THEN "TypeError" ELSE "SelectorError"
 \* h1, h2: two closures made by one def (one code object, two function objects): p12 = 'h1 > a', p13 = 'h2 > a'
 Fns == {"f", "g", "h1", "h2"}
 \* functions a probe's selector names (they are instrumented while the probe is active)
@@ -19,7 +21,8 @@ Fns == {"f", "g", "h1", "h2"}
 \* beforehand: only used in histories whose functions are pre-tooled
 \* p14, p15 = probing('f > a', overridable=True) whose pipeline overrides a with the value it already has: both are listeners too
 Touches(p) == CASE p = "q2" -> {} [] p \in {"p1", "p2", "p5", "p7", "p8", "p9", "p10", "p11", "p14", "p15", "bad", "bad3"} -> {"f"}
-                [] p \in {"p3", "p6"} -> {"f", "g"}
+                [] p \in {"p3", "p6", "p16"} -> {"f", "g"}
+                [] p = "bad4" -> {}
                 [] p \in {"p4", "bad2"} -> {"g"}
                 [] p = "p12" -> {"h1"} [] p = "p13" -> {"h2"}
 
@@ -42,12 +45,14 @@ EventsOf(p, fn, v) ==
     [] p = "p9" /\ fn = "f" -> << {<<"ta", v + 1>>} >>
     [] p = "p11" /\ fn = "f" -> << {<<"v", v>>} >>                    \* 'f > $v:@T': the annotated binding of c, through its tag only
     [] p = "p10" /\ fn = "f" -> << {<<"a", v + 1>>}, {<<"a", v + 1>>} >>        \* once per selector the probe was given
+    [] p = "p16" /\ fn = "f" -> << {<<"a", 2 * v + 102>>}, {<<"a", v + 1>>, <<"b", 2 * v + 2>>} >>     \* g's a inside f, then f's record at its return
+    [] p = "p16" /\ fn = "g" -> << {<<"a", v + 100>>} >>
     [] p = "p12" /\ fn = "h1" -> << {<<"a", v + 1000>>} >>
     [] p = "p13" /\ fn = "h2" -> << {<<"a", v + 2000>>} >>
     [] OTHER -> <<>>
 
 \* f(v) during which probe p is deactivated at the point where f calls g: what f itself binds comes before, what g binds after
-BeforeG(q, v) == IF q \in {"p3", "p4", "p6", "p9"} THEN <<>> ELSE EventsOf(q, "f", v)
+BeforeG(q, v) == IF q \in {"p3", "p4", "p6", "p9", "p16"} THEN <<>> ELSE EventsOf(q, "f", v)
 InG(q, v) == IF q = "p4" THEN EventsOf(q, "f", v) ELSE <<>>
 \* a listener that raises: the exception reaches the caller of the probed function, nothing else changes
 ListenerRaises(act, fn, v) == "p9" \in act /\ fn = "f" /\ v = 12
